@@ -200,22 +200,27 @@ def run(index: RepoIndex, rep) -> None:
     S = Aff.sym
     pl = gi.method('Position', '__add__').node.lineno
     sp, op_ = P('sy', 'sx'), P('oy', 'ox')
-    got = gi.add(sp, op_)
-    rep.check(got == ('P', (S('sy') + S('oy'), S('sx') + S('ox'))), 'C18.R4', f,
-              'Position.__add__', pl, f'{got}', 'Position + Position is not componentwise')
-    got = gi.add(sp, A())
-    rep.check(got == ('A', ((S('sy') + S('ymin'), S('sy') + S('ymax')),
-                            (S('sx') + S('xmin'), S('sx') + S('xmax')))), 'C18.R4', f,
-              'Position.__add__', pl, f'{got}',
-              'Position + Area does not shift both intervals by the position')
-    got = gi.p_sub_p(sp, op_)
-    rep.check(got == ('P', (S('sy') - S('oy'), S('sx') - S('ox'))), 'C18.R4', f,
-              'Position.__sub__', gi.method('Position', '__sub__').node.lineno,
-              f'{got}', 'Position - Position is not componentwise')
-    got = gi.neg(sp)
-    rep.check(got == ('P', (-S('sy'), -S('sx'))), 'C18.R4', f, 'Position.__neg__',
-              gi.method('Position', '__neg__').node.lineno, f'{got}',
-              '-Position is not componentwise')
+    from ..geom import split_cases
+
+    def agree(rule_, where, line, got_f, exp_f, inputs, what, label):
+        """got_f(*inputs) == exp_f(*inputs) in every case of the split on zero tests"""
+        for desc, (got_, exp_) in split_cases(gi, lambda *v: (got_f(*v), exp_f(*v)), inputs):
+            rep.check(got_ == exp_, rule_, f, where, line, f'{got_}',
+                      what + f': got {got_[1:] if got_ else got_}, expected {exp_[1:]}'
+                      + (f' when {desc}' if desc else ''), label + (f' [{desc}]' if desc else ''))
+    agree('C18.R4', 'Position.__add__', pl, gi.add,
+          lambda a, b: ('P', (a[1][0] + b[1][0], a[1][1] + b[1][1])), [sp, op_],
+          'Position + Position is not componentwise', 'p + p')
+    agree('C18.R4', 'Position.__add__', pl, gi.add,
+          lambda a, b: ('A', ((a[1][0] + b[1][0][0], a[1][0] + b[1][0][1]),
+                              (a[1][1] + b[1][1][0], a[1][1] + b[1][1][1]))), [sp, A()],
+          'Position + Area does not shift both intervals by the position', 'p + area')
+    agree('C18.R4', 'Position.__sub__', gi.method('Position', '__sub__').node.lineno,
+          gi.p_sub_p, lambda a, b: ('P', (a[1][0] - b[1][0], a[1][1] - b[1][1])), [sp, op_],
+          'Position - Position is not componentwise', 'p - p')
+    agree('C18.R4', 'Position.__neg__', gi.method('Position', '__neg__').node.lineno,
+          gi.neg, lambda a: ('P', (-a[1][0], -a[1][1])), [sp],
+          '-Position is not componentwise', '-p')
 
     # ---- R5 transforms
     tl = gi.method('Transform', '__mul__').node.lineno
@@ -225,17 +230,18 @@ def run(index: RepoIndex, rep) -> None:
         T1 = ('T', P('py', 'px'), ('O', o1))
         # action on a position and an area
         v = P('vy', 'vx')
-        got = gi.mul(T1, v)
-        exp = gi.p_add_p(T1[1], gi.o_mul_p(T1[2], v))
-        rep.check(got == exp, 'C18.R5', f, 'Transform.__mul__', tl, 'transform * position',
-                  f'transform * position with heading {o1} gives {got[1]}, expected p + o·x = '
-                  f'{exp[1]}', f'act position {o1}')
+        agree('C18.R5', 'Transform.__mul__', tl, gi.mul,
+              lambda t, x: gi.p_add_p(t[1], gi.o_mul_p(t[2], x)), [T1, v],
+              f'transform * position with heading {o1} is not p + o·x', f'act position {o1}')
         ar = A()
-        got = gi.mul(T1, ar)
-        exp = gi.p_add_a(T1[1], gi.o_mul_a(T1[2], ar))
-        rep.check(got == exp, 'C18.R5', f, 'Transform.__mul__', tl, 'transform * area',
-                  f'transform * area with heading {o1} gives {got[1]}, expected {exp[1]}',
-                  f'act area {o1}')
+        # expected: the rotated box shifted by the position, computed on the components (not
+        # through Position.__add__, which is what C18.R4 decides)
+        agree('C18.R5', 'Transform.__mul__', tl, gi.mul,
+              lambda t, a: (lambda r: ('A', ((t[1][1][0] + r[1][0][0], t[1][1][0] + r[1][0][1]),
+                                             (t[1][1][1] + r[1][1][0], t[1][1][1] + r[1][1][1]))))(
+                  gi.o_mul_a(t[2], a)), [T1, ar],
+              f'transform * area with heading {o1} is not the rotated box shifted by the '
+              f'position', f'act area {o1}')
         for o2 in O:
             got = gi.mul(T1, ('O', o2))
             rep.check(got == gi.o_mul_o(T1[2], ('O', o2)), 'C18.R5', f, 'Transform.__mul__', tl,
@@ -317,6 +323,12 @@ def run(index: RepoIndex, rep) -> None:
                   f'grid rotation for {o} reverses the list or the rows of its operand in '
                   f'place: the rotated grid is right once, the operand is left rearranged',
                   f'operand untouched {o}')
+        for msg in getattr(m, 'special_bad', []):
+            rep.violation('C18.R6', gf, g.grid_rot_name[o],
+                          index.func(GRID, g.grid_rot_name[o]).node.lineno,
+                          g.grid_rot_name[o],
+                          f'grid rotation for {o}: {msg} (the rotation is then not undone by '
+                          f'the inverse one on such grids)')
         inv = g.grid_rot.get(g.neg.get(o, ''))
         if inv is None:
             continue
